@@ -27,6 +27,11 @@ def verify_module(path, repo, timeout_ms=20000, workers=16, only=None, verbose=F
         except OutOfSubset as e:
             report["undecided"].append({"unit": fs.unit, "reason": f"out of subset: {e}"})
             continue
+        except AssertionError as e:
+            # an internal representation assumption of the generator does not hold for this code (e.g. a sort key that is a list):
+            # the unit is outside the subset, not a checker failure
+            report["undecided"].append({"unit": fs.unit, "reason": f"out of subset: {e}"})
+            continue
         except RecursionError as e:  # pragma: no cover
             report["undecided"].append({"unit": fs.name, "reason": f"engine recursion: {e}"})
             continue
